@@ -45,6 +45,7 @@ def run(ctx):
     rule_sib(ctx, F)
     rule_svckey(ctx, F)
     rule_sym(ctx, F)
+    rule_escread(ctx, F)
     # written text reads back only if the reader's tokeniser counts groups the way the multi-line writer nests them and
     # the Base32 / Base64 readers accept every tail the writers produce (shared with C07 and C18)
     import c07
@@ -849,3 +850,51 @@ def rule_sym(ctx, F):
                "the written text does not read back" % (fn, _fmt_set(bad), what))
         ctx.ob(R, b, "%s does not escape more than it has to" % fn, len(allowed - cs) <= 8, nontrivial=False,
                detail="escaped although plain for the reader: %s" % _fmt_set(allowed - cs))
+
+
+def rule_escread(ctx, F):
+    """RFC 1035 5.1: `\\X` where X is any character other than a digit.  Both readers of escape sequences
+    (Symbol::from_chars for text, Symbol::from_slice_index for octets) accept as a simple escape exactly the printable
+    ASCII characters that are not digits -- the blank included, which every writer emits as `\\ `."""
+    R = "C06.sym"
+    want = set(range(0x20, 0x7F)) - set(range(0x30, 0x3A))
+    for fn in ("from_chars", "from_slice_index"):
+        bs = [b for p, b in F.bodies.items() if re.match(r"^base::scan::Symbol::%s(::<.*>)?$" % fn, p)]
+        if not ctx.anchor(R, "Symbol::%s" % fn, len(bs) == 1):
+            continue
+        b = bs[0]
+        # the value that becomes SimpleEscape(..)
+        subj = None
+        site = None
+        for bi in sorted(b.reachable_blocks()):
+            for st in b.blocks[bi]["s"]:
+                if st[0] == "=" and st[2][0] == "agg" and st[2][1][0] == "adt" and str(st[2][1][1]).endswith("scan::Symbol") and "SimpleEscape" in str(st[2][1]):
+                    subj = deep_strip(b.term_of_operand(st[2][2][0]))
+                    site = bi
+        if not ctx.anchor(R, "SimpleEscape construction in Symbol::%s" % fn, subj is not None, b.where()):
+            continue
+        def core(x):
+            """the character itself: conversions (`u8::try_from(ch)`, `.map_err(..)?`, casts) peeled off"""
+            for _ in range(12):
+                x = deep_strip(x)
+                if x[0] == "cast":
+                    x = x[2]
+                elif x[0] == "call" and re.search(r"try_from$|From<.*>::from$|::from$|::into$|::map_err$|Try(<.*>)?::branch$", x[1] or "") and x[3]:
+                    x = x[3][0]
+                elif x[0] == "field" and str(x[2]) == "0" and deep_strip(x[1])[0] == "downcast" and deep_strip(x[1])[2] in ("Continue", "Ok") :
+                    x = deep_strip(x[1])[1]
+                else:
+                    break
+            return deep_strip(x)
+        s0 = core(subj)
+        parts = c03.byte_partition(b, F, lambda tt: core(tt) == s0)
+        if not ctx.anchor(R, "octet classification of the simple escape in Symbol::%s" % fn, bool(parts), b.where(site)):
+            continue
+        got = set()
+        for octs, leaf, path in parts:
+            if site in list(path) + [leaf]:
+                got |= set(octs)
+        ctx.ob(R, b, "%s takes `\\X` as a simple escape for exactly the printable non-digit characters" % fn, got == want,
+               "Symbol::%s accepts a simple escape for %s and refuses it for %s (expected: 0x20..=0x7E without the digits): text "
+               "that the writers produce (a blank is written `\\ `) is refused, or the two readers disagree about the same text"
+               % (fn, _fmt_set(got - want) or "nothing extra", _fmt_set(want - got) or "nothing"), b.where(site))
